@@ -487,8 +487,11 @@ def aggregate(pid, tier, spec, results, sdir, t0, t_build):
         "wall_s": round(time.time() - t0, 2),
         "violations": len(new),
     }
-    os.makedirs(os.path.join(VERIF, "evidence"), exist_ok=True)
-    evp = os.path.join(VERIF, "evidence", pid + ".json")
+    # evidence/<ID>.json describes runs against /repo itself; a run against another tree (VERIF_REPO:
+    # seeded-change evaluation, mutants) leaves it alone and writes next to its scratch copies
+    evdir = os.path.join(VERIF, "evidence") if os.path.realpath(REPO) == "/repo" else os.path.join(scratch_root(), "evidence-other-tree")
+    os.makedirs(evdir, exist_ok=True)
+    evp = os.path.join(evdir, pid + ".json")
     with open(evp + ".tmp", "w") as f:
         json.dump(ev, f, indent=1, default=str)
     os.replace(evp + ".tmp", evp)
